@@ -677,7 +677,7 @@ def validate_names(nodes):
     Names are identifiers (parsers other than prophy and patches take any text).
     """
     def check_identifier(name, where):
-        if not re.match(r"[A-Za-z_][A-Za-z0-9_]*$", name):
+        if not re.match(r"[A-Za-z_][A-Za-z0-9_]*\Z", name):
             raise ModelError("'%s'%s is not an identifier" % (name, where))
 
     for node in nodes:
